@@ -29,3 +29,23 @@ Theorem C10_no_new_panic : forall decompress fs file sched k,
   o_panic (read_all_src decompress fs (mk_src file sched None)) = false ->
   o_panic (read_all_src decompress fs (mk_src file sched (Some k))) = false.
 Proof. exact src_fault_no_new_panic. Qed.
+
+(** The same for the files the property is about: for EVERY byte string the
+    independent validator accepts as a conformant file (so: every valid file),
+    read through any fragmentation schedule with any single source operation
+    failing, the outcome is either exactly the file's records, or an error
+    after a prefix of them - no panic, no other rows.  (C04 + C08 + C10.) *)
+From PQ Require Import MetaTypes FileSpec ForeignProofs ConformantFaults.
+Theorem C10_conformant_fault_safe : forall (decompress : Z -> bytes -> option bytes) fs file v,
+  check_file decompress file = inr v -> fv_fields v = fs -> fshape_ok fs ->
+  (forall x, decompress CODEC_UNCOMPRESSED x = Some x) ->
+  (forall c x y, wf_bytes x -> decompress c x = Some y -> wf_bytes y) ->
+  wf_bytes file ->
+  forall sched k,
+  let bad := read_all_src decompress fs (mk_src file sched (Some k)) in
+  bad = expected_outcome v \/
+  (o_err bad = true /\ o_panic bad = false /\
+   o_nexts bad <= sumN (map rv_rows (fv_rgs v)) /\
+   exists rest, view_records v = o_recs bad ++ rest).
+Proof. exact conformant_fault_safe. Qed.
+Print Assumptions C10_conformant_fault_safe.
